@@ -964,6 +964,52 @@ impl Value {
         }
     }
 
+    /// Total preorder used by `sort` / `sort_by`. It agrees with `compare` on mutually comparable
+    /// values and orders values that have no natural order by type (NaN after the other numbers),
+    /// so the comparator stays consistent for every input (an inconsistent one makes
+    /// `slice::sort_by` panic).
+    pub fn sort_cmp(&self, other: &Value, heap: &Heap) -> std::cmp::Ordering {
+        use std::cmp::Ordering;
+
+        fn rank(value: &Value) -> u8 {
+            match value {
+                Value::Null => 0,
+                Value::Bool(_) => 1,
+                Value::Number(_) => 2,
+                Value::String(_) => 3,
+                Value::List(_) => 4,
+                Value::Record(_) => 5,
+                Value::Lambda(_) => 6,
+                Value::BuiltIn(_) => 7,
+                Value::Spread(_) => 8,
+            }
+        }
+
+        match (self, other) {
+            (Value::Number(a), Value::Number(b)) => a
+                .partial_cmp(b)
+                .unwrap_or_else(|| a.is_nan().cmp(&b.is_nan())),
+            (Value::List(a_ptr), Value::List(b_ptr)) => {
+                match (a_ptr.reify(heap).as_list(), b_ptr.reify(heap).as_list()) {
+                    (Ok(a_list), Ok(b_list)) => {
+                        for (a_elem, b_elem) in a_list.iter().zip(b_list.iter()) {
+                            match a_elem.sort_cmp(b_elem, heap) {
+                                Ordering::Equal => continue,
+                                other => return other,
+                            }
+                        }
+                        a_list.len().cmp(&b_list.len())
+                    }
+                    _ => Ordering::Equal,
+                }
+            }
+            _ => match self.compare(other, heap) {
+                Ok(Some(ordering)) => ordering,
+                _ => rank(self).cmp(&rank(other)),
+            },
+        }
+    }
+
     pub fn get_type(&self) -> ValueType {
         match self {
             Value::Number(_) => ValueType::Number,
